@@ -9,11 +9,13 @@
      R10enum/option/result  `match` omitting a variant of an enum / None / Err
      R10guard-enum/option   `match` whose only arm for a variant carries a guard (a guarded arm may be skipped: it covers nothing)
      R11missing/dup/unknown constructing a model with a missing / duplicated / unknown field
-     R12method / R12requires adopting a trait without its required method / `@requires` field *)
+     R12method / R12requires adopting a trait without its required method / `@requires` field
+     R12requires-stacked     the missing field is named by the SECOND of two stacked `@requires` decorators
+     R12method-second-trait  the missing method belongs to the SECOND adopted trait (`with A, B`) *)
 EXTENDS Integers, Sequences, TLC, Json
 StmtRules == {"R7field", "R7index", "R8", "R9", "R10enum", "R10option", "R10result", "R10guard-enum", "R10guard-option",
               "R11missing", "R11dup", "R11unknown"}
-DeclRules == {"R12method", "R12requires"}
+DeclRules == {"R12method", "R12requires", "R12requires-stacked", "R12method-second-trait"}
 Blocks == {"if", "elif", "else", "while", "for", "case", "arrow"}
 Hosts == {"fn", "method-model", "method-class"}
 DeclHosts == {"model", "class"}
